@@ -1,7 +1,11 @@
 /* mpmc.c — correspondence harness for include/mpmc_fifo.h (C13), with the real
  * hazard-pointer code (src/hazard_pointer.c) doing the reclamation.
  *
- * usage: mpmc <pool nodes> <scan every k-th successful pop (0 = never)> <script>
+ * usage: mpmc <pool nodes> <scan every k-th successful pop (0 = never)> <script> [d]
+ *   with `d` the run ends with mpmc_fifo_destroy on whatever is still queued (teardown with
+ *   items left: every queued node is retired, a retirement may reach the threshold and scan in
+ *   the middle of the walk) followed by a scan of every record; every node must then be back
+ *   in the pool (status LEAK otherwise).  Without `d` the queue is drained by pops.
  * ops: p<v> = push(v) (skipped with `note skip push` when no free node is available),
  *      o    = trypop,
  *      g    = explicit hazard_pointer_scan on the thread's own record,
@@ -151,8 +155,24 @@ int main(int argc, char** argv) {
     vr_reg(&pool[i].prev, 8, "n%d.prev", i);
     vr_reg(&pool[i].next, 8, "n%d.next", i);
   }
-  vr_note("init mpmc %d %d", npool, vh_script.nthreads);
+  const int destroy_mode = argc > 4 && argv[4][0] == 'd';
+  vr_note("init mpmc %d %d%s", npool, vh_script.nthreads, destroy_mode ? " destroy" : "");
   vh_run(do_op);
+  if (destroy_mode) {
+    if (!rec[0]) join_thread(0);
+    vr_note("call destroy");
+    mpmc_fifo_destroy(rec[0], &fifo);
+    vr_note("ret destroy");
+    /* a trypop that published slot 1, lost the race and then found the queue empty returns
+     * with slot 1 still naming a node (bounded: one node per thread, overwritten by its next
+     * pop): release everything first, as a thread leaving the structure would */
+    for (int t = 0; t < vh_script.nthreads; t++)
+      for (int k = 0; rec[t] && k < MPMC_HAZARD_COUNT; k++) hazard_pointer_done_using(rec[t], k);
+    for (int t = 0; t < vh_script.nthreads; t++)
+      if (rec[t]) hazard_pointer_scan(rec[t]);
+    vr_note("pool %d %d", nfree, npool);
+    vr_finish(nfree == npool ? "OK" : "LEAK");
+  }
   /* drain single-threaded so the monitor can tell a lost item from a queued one */
   for (;;) {
     vr_note("call pop");
